@@ -665,8 +665,15 @@ func ruleC04KeyEncoding(c *Ctx) {
 						reader = &Term{Op: "call", V: call}
 					}
 				}
-			case e.Kind == "call" && isTextBufferWrite(e.Callee) && !strings.HasSuffix(e.Callee, ").Write"):
+			case e.Kind == "call" && (isTextBufferWrite(e.Callee) && !strings.HasSuffix(e.Callee, ").Write") || isByteAccumulatorWrite(e)):
 				a := e.Args[len(e.Args)-1]
+				if a.Op == "varargs" && len(a.Args) == 1 {
+					a = a.Args[0] // append(key, b)
+				}
+				if e.Callee == "strconv.AppendInt" && len(e.Args) == 3 {
+					// the digits of a number appended to the key bytes: treated as strconv.Itoa of that number
+					a = &Term{Op: "call", Name: "strconv.Itoa", Args: []*Term{e.Args[1]}}
+				}
 				// the text of a key value: the decimal text the comparison family uses for a number against a string
 				// (TextOf: floats without an exponent). The %v text is NOT that text: it prints float64(1500000) as
 				// 1.5e+06 and int 1500000 as 1500000, so the hash path misses a pair the nested loop finds
@@ -738,6 +745,24 @@ func ruleC04KeyEncoding(c *Ctx) {
 		why = append(why, "no complete column iteration")
 	}
 	c.Check(len(why) == 0, "c04.key-encoding", key, c.P.Pos(f.Pos()), "value text then separator per column; key map holds the same value", strings.Join(uniq(why), "; "))
+}
+
+// isByteAccumulatorWrite: the key is grown as a []byte: append(key, b), append(key, text...), strconv.AppendInt(key, n, 10).
+func isByteAccumulatorWrite(e Effect) bool {
+	call, ok := e.Instr.(*ssa.Call)
+	if !ok || len(call.Call.Args) < 2 {
+		return false
+	}
+	if shortType(call.Call.Args[0].Type()) != "[]byte" && shortType(call.Call.Args[0].Type()) != "[]uint8" {
+		return false
+	}
+	switch e.Callee {
+	case "builtin:append":
+		return len(e.Args) == 2
+	case "strconv.AppendInt":
+		return len(e.Args) == 3 && e.Args[2].String() == "c:10"
+	}
+	return false
 }
 
 // isTextBufferWrite: a write method of a text buffer (bytes.Buffer or strings.Builder).
